@@ -3108,6 +3108,14 @@ static void struct_members(Token **rest, Token *tok, Type *ty) {
       mem->name = mem->ty->name;
       if (is_variably_modified(mem->ty))
         error_tok(mem->ty->name_pos, "a member cannot have a variably modified type");
+
+      // A struct or union cannot contain itself, or anything else
+      // whose size is not known yet.
+      Type *elem = mem->ty;
+      while (elem->kind == TY_ARRAY)
+        elem = elem->base;
+      if ((elem->kind == TY_STRUCT || elem->kind == TY_UNION) && elem->size < 0)
+        error_tok(mem->ty->name_pos, "member has incomplete type");
       mem->idx = idx++;
       mem->align = attr.align ? attr.align : mem->ty->align;
 
